@@ -87,7 +87,7 @@ def rising_bins(rng, allow_gaps=True) -> tuple[list[list[float]], dict]:
 def binning_json(pairs, ire=True, form=None, rng=None) -> dict:
     consecutive = all(pairs[i][1] == pairs[i + 1][0] for i in range(len(pairs) - 1))
     if form is None:
-        forms = ["pairs", "static_obj"]
+        forms = ["pairs", "static_obj", "derived_obj"]
         if consecutive:
             forms += ["edges", "numpy_obj", "edge_list"]
         form = rng.choice(forms)
